@@ -40,6 +40,6 @@ Definition same_but_caches (s s' : state) : Prop :=
 
 Definition is_observer (o : op) : bool :=
   match o with
-  | ObsBbox _ | ObsSize _ | ObsRepr _ | ObsDesc _ | ObsFind _ _ | ObsVisible _ => true
+  | ObsBbox _ | ObsSize _ | ObsRepr _ | ObsDesc _ | ObsFind _ _ | ObsVisible _ | ObsExport _ _ => true
   | _ => false
   end.
